@@ -3591,19 +3591,25 @@ impl KotoVm {
         // Render the value as a string, applying the precision option if specified
         let precision = format_options.and_then(|options| options.precision);
         let representation = format_options.and_then(|options| options.representation);
+        // std's float formatting supports fewer than u16::MAX digits of precision
+        let number_precision = |precision: u32| precision.min(u16::MAX as u32 - 1) as usize;
         let rendered = match value {
             KValue::Number(n) => match (precision, representation) {
                 // Floats keep their fractional part in the representations that support it
                 (_, Some(StringFormatRepresentation::Debug)) if n.is_f64() => match precision {
-                    Some(precision) => format!("{:.*}", precision as usize, f64::from(n)),
+                    Some(precision) => format!("{:.*}", number_precision(precision), f64::from(n)),
                     None => n.to_string(),
                 },
                 (_, Some(StringFormatRepresentation::ExpLower)) if n.is_f64() => match precision {
-                    Some(precision) => format!("{:.*e}", precision as usize, f64::from(n)),
+                    Some(precision) => {
+                        format!("{:.*e}", number_precision(precision), f64::from(n))
+                    }
                     None => format!("{:e}", f64::from(n)),
                 },
                 (_, Some(StringFormatRepresentation::ExpUpper)) if n.is_f64() => match precision {
-                    Some(precision) => format!("{:.*E}", precision as usize, f64::from(n)),
+                    Some(precision) => {
+                        format!("{:.*E}", number_precision(precision), f64::from(n))
+                    }
                     None => format!("{:E}", f64::from(n)),
                 },
                 (_, Some(representation)) => {
@@ -3619,7 +3625,7 @@ impl KotoVm {
                     }
                 }
                 (Some(precision), None) if n.is_f64() || n.is_i64_in_f64_range() => {
-                    format!("{:.*}", precision as usize, f64::from(n))
+                    format!("{:.*}", number_precision(precision), f64::from(n))
                 }
                 _ => n.to_string(),
             },
